@@ -44,6 +44,9 @@ def run(ctx):
     for src, cfgs in gen_units:
         c = cfgs[0]
         units.append((src, [Cfg(c.args, c.w, s, False) for s in SIZES]))
+    import C05
+    dyn = [u for u in C05.directed_units(rng, ws[:2], 0) if ' a[n];' in u[0] or ' a[j];' in u[0]]
+    sweeps.diff_sweep(ctx, 'dynamic array lengths over the boundary grid (negative, zero, huge) and indices', dyn, extra=halts_extra(ctx))
     results = diffrun.run_units(units, want_ref=False)
     h = halts_extra(ctx)
     total = 0
@@ -77,6 +80,7 @@ def run(ctx):
                         generous=[base[0], base[1], base[2][:200].decode('latin1')], got=[t[0], t[1], t[2][:200].decode('latin1')], detail=res.run.detail)
     ctx.cov['evaluations'] += total
     ctx.cov['distinct_nontrivial'] += len(distinct)
+    nthr = sweeps.fill_sweep(ctx, sweeps.FILL_BODIES, [2, 3] if q else [2, 3, 4, 8], [12] if q else [12, 20, 33])
     ctx.cov['rule'] = (ctx.cov.get('rule', '') + ' | stack-boundary sweep: directed programs (write(int) next to fresh arrays, calls inside array literals, VLAs, recursion with arrays, arrays passed and mutated) and generated programs, '
-                       'each run at stack sizes %s words; every run must equal the 300-word run or end in stack_overflow after a prefix of its output; %d programs had their overflow threshold inside the swept range' % (SIZES, nbound))
+                       'each run at stack sizes %s words; every run must equal the 300-word run or end in stack_overflow after a prefix of its output; %d programs had their overflow threshold inside the swept range; byte-granular fill sweep: a leading byte VLA of size n = 0..capacity+2 fills the stack to the byte before each directed body (write(int) of the most negative value, arrays, byte/bool locals deepest, calls in literals, recursion, stop handlers): %d (program, word size, stack) combinations crossed their threshold' % (SIZES, nbound, nthr))
     ctx.cov['samples'] = (ctx.cov.get('samples') or []) + [{'source': DIRECTED[0], 'stack_sizes': SIZES[:8]}]
